@@ -176,7 +176,7 @@ def run(ctx, ck) -> None:
                 q = world.qualify(cls.module, d.func if isinstance(d, ast.Call) else d)
                 if q in CACHING:
                     ck.bad('J3', node, f'{cls.name}.{name} is memoised with {q}: a value computed from the operator\'s (possibly traced) fields is stored on the instance / in a '
-                           'global cache, so the first call under jit leaks a tracer into later eager or differently-traced calls (and frozen modules cannot hold the cache)', instance=f'{cls.name}.{name} cached')
+                           'global cache, so the first call under jit leaks a tracer into later eager or differently-traced calls (and frozen modules cannot hold the cache)', instance=f'{cls.name}.{name} cached', semantic=True)  # the presence of the decorator decides
     ck.floor('J3', nmeth, 100, 'operator methods scanned for memoisation')
 
     # J2b: non-static fields annotated with a Python scalar type must not receive NumPy/JAX values
